@@ -1,8 +1,20 @@
 """Glue between specs / worlds / reference executor and the live library."""
+import collections
 import json
+
+from hypothesis.errors import UnsatisfiedAssumption
 
 from vlib.gen import schema as GS
 from vlib.ref import exec as RX
+
+
+class SchemaRefused(UnsatisfiedAssumption):
+    """py_gql refused (with one of its schema / SDL errors) a schema that is valid by construction. That is a violation of
+    C11 / C13, which decide it; for the properties quantifying over *valid schemas* the case cannot be evaluated. Being an
+    UnsatisfiedAssumption, Hypothesis discards the example; the runner counts REFUSED and discards such replays."""
+
+
+REFUSED = [0]
 
 
 def frame_of(exc):
@@ -49,6 +61,41 @@ class Obj:
         return "Obj(%s)" % self.__typename__
 
 
+class RootObj:
+    """Root value for schemas whose *root* types also have default-resolved fields: the same attribute serves every root
+    type, so the method dispatches on the type being executed."""
+
+    def __init__(self, methods_for, roots):
+        self._m = {tn: methods_for.get(tn, {}) for tn in roots if tn}
+
+    def __getattr__(self, name):
+        if not any(name in ms for ms in self.__dict__["_m"].values()):
+            raise AttributeError(name)
+
+        def call(ctx, info, **args):
+            return self.__dict__["_m"][info.parent_type.name][name](self, ctx, info, **args)
+        return call
+
+    def __repr__(self):
+        return "RootObj"
+
+
+_ROOTS = collections.OrderedDict()   # id(schema) -> (schema, RootObj): Schema has __slots__, so the root value is kept beside it
+
+
+def _remember_root(schema, root):
+    if root is None:
+        return
+    _ROOTS[id(schema)] = (schema, root)   # the strong reference keeps the id from being re-used while the entry lives
+    while len(_ROOTS) > 16:
+        _ROOTS.popitem(last=False)
+
+
+def root_for(schema):
+    e = _ROOTS.get(id(schema))
+    return e[1] if e is not None and e[0] is schema else None
+
+
 def objectify(v, methods_for):
     if isinstance(v, list):
         return [objectify(x, methods_for) for x in v]
@@ -87,6 +134,11 @@ def make_resolver(tn, fd, wrap=None, methods_for=None):
                 ext = types.MappingProxyType(ext)   # `extensions` is declared as a Mapping: a read-only view is one
             # applications subclass ResolverError (its documentation invites it): every other error is of a subclass
             cls = ResolverError if len(b[1]) % 2 else _resolver_error_subclass(ResolverError)
+            if sum(map(ord, b[1])) % 3 == 0:
+                # an error that arrives with a path of its own (re-raised from a delegated request, or built with the
+                # documented `path` argument): the response path of the failing field is what has to be reported
+                base_cls = cls
+                cls = lambda m, extensions=None: base_cls(m, path=["elsewhere", 0, "inner"], extensions=extensions)  # noqa
             if GS.nullable(GS.parse_t(fd["type"]))[0] == "list" and isinstance(b[2], dict) and b[2].get("code", 0) in (1, 2):
                 # a list field served by a generator that fails when it is consumed: still this field's resolver error
                 def failing():
@@ -115,7 +167,16 @@ def sdl_view(spec):
     return GS.Spec(s)
 
 
-def make_schema(spec, mode="code", wrap=None, default_fields=None):
+def make_schema(spec, mode="code", wrap=None, default_fields=None, root_defaults=False):
+    from py_gql.exc import SchemaError, SDLError
+    try:
+        return _make_schema(spec, mode, wrap, default_fields, root_defaults)
+    except (SchemaError, SDLError) as e:
+        REFUSED[0] += 1
+        raise SchemaRefused("%s: %s" % (type(e).__name__, str(e)[:200]))
+
+
+def _make_schema(spec, mode="code", wrap=None, default_fields=None, root_defaults=False):
     """-> (schema, effective spec).  mode 'code': python API (internal enum values, python names);
     'sdl': build_schema(text) + register_resolver.
     default_fields(typename, fieldname) -> bool: fields (of non-root types) left to py_gql's default resolver; the
@@ -125,7 +186,7 @@ def make_schema(spec, mode="code", wrap=None, default_fields=None):
     methods_for = {}
 
     def is_default(tn, fd):
-        return default_fields is not None and tn not in roots and default_fields(tn, fd["name"])
+        return default_fields is not None and (root_defaults or tn not in roots) and default_fields(tn, fd["name"])
 
     def method(tn, fd):
         r = make_resolver(tn, fd, wrap, methods_for)
@@ -145,13 +206,16 @@ def make_schema(spec, mode="code", wrap=None, default_fields=None):
             for fd in eff.fields(tn):
                 if not is_default(tn, fd):
                     schema.register_resolver(tn, fd["name"], make_resolver(tn, fd, wrap, methods_for))
+        _remember_root(schema, RootObj(methods_for, roots) if root_defaults else None)
         return schema, eff
     resolvers = {}
     for tn in spec.objects():
         for fd in spec.fields(tn):
             if not is_default(tn, fd):
                 resolvers[(tn, fd["name"])] = make_resolver(tn, fd, wrap, methods_for)
-    return GS.build_code(spec, resolvers), spec
+    schema = GS.build_code(spec, resolvers)
+    _remember_root(schema, RootObj(methods_for, roots) if root_defaults else None)
+    return schema, spec
 
 
 def norm_data(o):
